@@ -194,6 +194,89 @@ func attrTypesOf(t *spec.T) []spec.T {
 	return out
 }
 
+// typeDiffFanIn: the abstract result type ar and the concrete result type cr
+// differ only below a collection that is made from the members of a tuple or
+// the attributes of an object (>= 2 members) and whose target element type
+// contains a nested placeholder: for unknown/null inputs the library predicts
+// the element type by unifying the member types as wholes (unsafe mode),
+// while the conversion itself converts member by member and unifies the
+// results, which can settle on another element type.
+func typeDiffFanIn(ins []spec.T, tgt *spec.T, ar, cr spec.T) bool {
+	if ar.Equal(cr) {
+		return true
+	}
+	if ar.K != cr.K {
+		return false
+	}
+	switch ar.K {
+	case spec.KList, spec.KSet, spec.KMap:
+		if tgt != nil && tgt.IsColl() && tgt.E.K != spec.KDynamic && tgt.E.HasDynamic() {
+			for _, in := range ins {
+				if ar.K == spec.KMap && in.K == spec.KObject && len(in.Attrs) >= 2 {
+					return true
+				}
+				if ar.K != spec.KMap && in.K == spec.KTuple && len(in.Elems) >= 2 {
+					return true
+				}
+			}
+		}
+		return typeDiffFanIn(childIns(ins, "e", 0, ""), childTgt(tgt, "e", 0, ""), *ar.E, *cr.E)
+	case spec.KTuple:
+		if len(ar.Elems) != len(cr.Elems) {
+			return false
+		}
+		for i := range ar.Elems {
+			if !typeDiffFanIn(childIns(ins, "i", i, ""), childTgt(tgt, "i", i, ""), ar.Elems[i], cr.Elems[i]) {
+				return false
+			}
+		}
+		return true
+	case spec.KObject:
+		if len(ar.Attrs) != len(cr.Attrs) {
+			return false
+		}
+		for _, aa := range ar.Attrs {
+			ca := attrOf(&cr, aa.Name)
+			if ca == nil {
+				return false
+			}
+			if !typeDiffFanIn(childIns(ins, "a", 0, aa.Name), childTgt(tgt, "a", 0, aa.Name), aa.T, ca.T) {
+				return false
+			}
+		}
+		return true
+	}
+	return false
+}
+
+// containsNegZero reports whether a negative zero number occurs in v.
+func containsNegZero(v cty.Value) bool {
+	found := false
+	_ = cty.Walk(v, func(_ cty.Path, x cty.Value) (bool, error) {
+		x, _ = x.Unmark()
+		if x.Type() == cty.Number && x.IsKnown() && !x.IsNull() {
+			if f := x.AsBigFloat(); f.Sign() == 0 && f.Signbit() {
+				found = true
+			}
+		}
+		return true, nil
+	})
+	return found
+}
+
+// containsString reports whether the known string s occurs in v.
+func containsString(v cty.Value, s string) bool {
+	found := false
+	_ = cty.Walk(v, func(_ cty.Path, x cty.Value) (bool, error) {
+		x, _ = x.Unmark()
+		if x.Type() == cty.String && x.IsKnown() && !x.IsNull() && x.AsString() == s {
+			found = true
+		}
+		return true, nil
+	})
+	return found
+}
+
 // typeDiffUnderEmpty: the abstract result type ar and the concrete result type
 // cr differ only in that cr keeps a placeholder below a collection that is
 // known and empty in the concrete input (vals), where ar has a resolved type:
